@@ -94,6 +94,8 @@ type Context struct {
 
 	Left    int
 	LastErr error
+
+	verif verifState // step and depth counters of the verification hook (build tag verif)
 }
 
 // NewContext creates a new matching context.
@@ -458,6 +460,7 @@ func (p *gRepeat0) Match(src []*types.Token, ctx *Context) (n int, result any, e
 				return
 			}
 		}
+		verifStep(ctx, n1)
 		rets = append(rets, ret1)
 		n += n1
 		src = src[n1:]
@@ -501,6 +504,7 @@ func (p *gRepeat1) Match(src []*types.Token, ctx *Context) (n int, result any, e
 				return
 			}
 		}
+		verifStep(ctx, n1)
 		rets = append(rets, ret1)
 		n += n1
 	}
@@ -610,7 +614,9 @@ func (p *Var) Match(src []*types.Token, ctx *Context) (n int, result any, err er
 	if enableMatchVar && len(src) > 0 {
 		log.Println("==> Match", p.Name, src[0])
 	}
+	verifEnter(ctx, p)
 	n, result, err = g.Match(src, ctx)
+	verifLeave(ctx)
 	if err == nil {
 		if retProc := p.RetProc; retProc != nil {
 			defer func() {
